@@ -61,8 +61,20 @@ def build_pool():
     SN = Struct('SNest', [SA, Tup(u8, SC), u64])
     SArr = Struct('SArr', [CArr(u16, 3), CArr(s8, 2), Arr(u8, 4)])
     P += [SA, SB, SC, SE, SN, SArr, Vec(SA), CArr(SA, 2), Opt(SA), Map(u16, SA)]
+    # class templates: annotated inside (NOP_STRUCTURE with the abbreviated name) and from outside by the base template
+    # name (NOP_EXTERNAL_STRUCTURE), also with a logical buffer; unbounded logical buffers (internal and external tag; the library requires a one-element array, the idiom for a header
+    # followed by a run-time sized payload - the pool only uses the element that is really there)
+    STi = Struct('STi', [u16, s8, Arr(i32, 2)], style='template')
+    STe = Struct('STe', [i64, Vec(u8)], style='external_template')
+    STl = Struct('STl', [u8, LBuf(u16, 5, 4, False, 'c')], style='external_template')
+    SU0 = Struct('SU0', [u8, LBuf(u8, 1, 4, False, 'c', unb=True)])
+    SU1 = Struct('SU1', [LBuf(u16, 1, 2, False, 'std', unb=True)], style='external')
+    SU2 = Struct('SU2', [LBuf(i32, 1, 8, False, 'c', unb=True)], style='external_template')
+    P += [STi, STe, STl, SU0, SU1, SU2, Vec(STi), Opt(STe)]
     trk = Tracked()
     P += [trk, Vec(trk), Opt(trk), Res(err8, trk), Var(trk, s8), Arr(trk, 2), Map(u8, trk)]
+    # tracked alternatives at higher indices than their neighbours (switching to a lower alternative must destroy them)
+    P += [Var(s8, trk), Var(u8, trk, Vec(trk)), Tup(trk, Opt(trk)), Pair(u8, trk)]
     # logical buffers: every size-member type with a small and a >=128-element buffer
     k = 0
     for (sw, ss) in [(1, False), (2, False), (4, False), (8, False), (1, True), (2, True), (4, True), (8, True)]:
@@ -104,6 +116,15 @@ def build_pool():
     TN = Table('TN', None, [(0, True, TA), (1, True, Vec(TA)), (2, True, u16)])
     TH = Table('TH', 7, [(0, True, hd), (1, True, u8), (2, True, Vec(hd))])
     P += [TA, TB, TC, TO, TN, TH, Vec(TA), Struct('STab', [u8, TA, u8]), Opt(TA)]
+    # table entries x element classes: an entry's declared size comes from Size() of its value and is the only place
+    # where a size estimate reaches the wire, so every encoding family also appears as an entry
+    slf = next(x for x in P if x.tid.startswith('SL') and x.schema["m"][0].get("e", {}).get("k") == "flt")
+    TM1 = Table('TM1', 21, [(0, True, b), (1, True, c), (2, True, u16), (3, True, i32), (4, True, u64), (5, True, i64),
+                            (6, True, f32), (7, True, f64), (8, True, eu8), (9, True, s16), (10, True, i8), (11, True, ei64)])
+    TM2 = Table('TM2', 22, [(0, True, Vec(f32)), (1, True, Arr(f32, 2)), (2, True, Pair(u8, f32)), (3, True, Tup(f32, f64)),
+                            (4, True, Map(u8, f32)), (5, True, Var(f32, s8)), (6, True, Res(err8, f32)), (7, True, SC),
+                            (8, True, slf), (9, True, Vec(s8)), (10, True, UMap(u16, u8)), (11, True, Wrap('WF32', f32))])
+    P += [TM1, TM2, Vec(TM1), Struct('STM2', [u8, TM2])]
     # handles in containers
     P += [Vec(hd), Opt(hd), Var(hd, u8), Struct('SH', [u8, hd, hf, s8]), Tup(hd, hd)]
     # version pool of Tables.tla (pool/tables.json, emitted by TLC): every definition reachable within 4 steps
